@@ -415,13 +415,28 @@ template <typename N> struct Lin {
     return rel(build(da), build(db), r);
   }
 
+  // the second operand DERIVED from the first one by a copy or by adding / subtracting a number (the job's description "db"
+  // is the mathematically equal expression): expressions related this way may share their representation
+  exp_t derived(const exp_t &a, const vj::Value &dv) const {
+    const std::string k = dv["k"].str();
+    long n = dv.geti("n", 0);
+    if (k == "copy") return exp_t(a);
+    if (k == "addc") return a + num(n);
+    if (k == "addc64") return a + (int64_t)n;
+    if (k == "subc") return a - num(n);
+    exp_t b(a);
+    b = b + num(n);
+    return b - num(0);
+  }
+
   void run(const vj::Value &j) const {
     const std::string op = j["op"].str(), via = j.gets("via", "");
     bool i64 = j.geti("i64", 0) != 0;
     if (op == "e_build") {
       put("r", obs(build(j["da"])));
     } else if (op == "e_add" || op == "e_sub") {
-      exp_t a = build(j["da"]), b = build(j["db"]);
+      exp_t a = build(j["da"]);
+      exp_t b = j.has("derive") ? derived(a, j["derive"]) : build(j["db"]);
       put("a", obs(a));
       put("b", obs(b));
       put("r", obs(op == "e_add" ? a + b : a - b));
@@ -457,6 +472,10 @@ template <typename N> struct Lin {
       exp_t a = build(j["da"]);
       put("a", obs(a));
       put("r", obs(a.rename(renaming(j["map"]))));
+    } else if (op == "c_make" && j.has("derive")) {
+      exp_t a = build(j["base"]);
+      exp_t b = derived(a, j["derive"]);
+      put("r", obs(j.geti("swap", 0) ? rel(b, a, j["rel"].str()) : rel(a, b, j["rel"].str())));
     } else if (op == "c_make") {
       put("r", obs(make(j["da"], j["db"], j["rel"].str(), i64)));
     } else if (op == "c_negate") {
